@@ -14,7 +14,21 @@
    numbers), sq_contract (the SVD factor A of a PSD matrix satisfies A A^T = P).
    Scope: linear layouts -- SUKFCorrection sizes its sigma set from pred_state.dim
    (2*dim+1) whereas sigma_point() produces 2*dim_covariance+1 columns; the model
-   has dim = dim_covariance = n and nsig n = 1 + (n + n) sigma points. *)
+   has dim = dim_covariance = n and nsig n = 1 + (n + n) sigma points.
+
+   REMARK (no stale state).  The model of one correct() call, sukf_correct, is a pure
+   function of THAT call's inputs: weights (fixed at construction), h, y, the noise
+   covariance the measurement model returns at that call, the predicted belief and the
+   previous content of the output object.  It takes no argument standing for what an
+   earlier call left in the object: correctStep recomputes everything from the
+   measurement model's current outputs and begins with innovations_.resize(0, 0), and
+   getLikelihood() reads only what the last call stored (the `members` component of
+   the result).  Hence for a sequence of calls on one object the theorems below apply
+   to every call separately, and "the implementation's t-th call equals sukf_correct on
+   the t-th inputs" IS the absence of stale state; there is nothing further to prove in
+   Coq, it is the correspondence check that must establish it.  It does so on sequence
+   cases (kind sukf_seq: one SUKFCorrection object per constructor and one UKFCorrection
+   object driven through 2-4 calls while R, y, h, the belief and the sizes change). *)
 Require Import ZArith QArith List.
 Require Import BFL.Ops BFL.ListOps BFL.Density BFL.C05_Model.
 From mathcomp Require Import all_ssreflect all_algebra.
